@@ -2,6 +2,8 @@
 C12 — URIs: parsed form is faithful, equality/hash agree, path algebra is consistent.
 Only property theorems and non-vacuity examples; lemmas are in Rpki/Proofs/Uri*.lean.
 -/
+import Rpki.Proofs.UriRsync7
+import Rpki.Proofs.UriHttps2
 import Rpki.Proofs.UriHttps
 namespace Rpki.C12
 open Rpki.Uri Rpki.Consts
@@ -113,6 +115,41 @@ theorem https_join_reparse (u v : Https) (p : Bytes) (hu : u.Inv) (hj : u.join p
   · injection hj with hj; rw [← hj]
 
 /-! ## Non-vacuity: concrete URIs satisfy the hypotheses -/
+
+/-! ## parent-of, relative_to and join laws -/
+
+/-- `relative_to` reports the empty path exactly for URIs of the same module whose paths are equal
+up to one trailing slash. -/
+theorem rsync_relativeTo_empty_iff (u o : Rsync) (hu : u.Inv) (ho : o.Inv) :
+    u.relativeTo o = some [] ↔ u.eqModule o = true ∧ stripSlash u.path = stripSlash o.path :=
+  Rsync.relativeTo_empty_iff u o hu ho
+
+/-- The parent-of relation is irreflexive … -/
+theorem rsync_isParentOf_irrefl (u : Rsync) : u.isParentOf u = false := Rsync.isParentOf_irrefl u
+
+/-- … transitive … -/
+theorem rsync_isParentOf_trans (u o w : Rsync) (h1 : u.isParentOf o = true) (h2 : o.isParentOf w = true) :
+    u.isParentOf w = true := Rsync.isParentOf_trans u o w h1 h2
+
+/-- … and agrees with URI equality on both sides. -/
+theorem rsync_isParentOf_congr (u u' o o' : Rsync) (hu : u.Inv) (hu' : u'.Inv) (ho : o.Inv) (ho' : o'.Inv)
+    (h1 : u.eq u' = true) (h2 : o.eq o' = true) : u.isParentOf o = u'.isParentOf o' :=
+  Rsync.isParentOf_congr u u' o o' hu hu' ho ho' h1 h2
+
+/-- `join(base, p)` lies beneath `base`: relative to the base it is exactly `p`, and for a
+non-empty `p` the base is a parent of the result. -/
+theorem rsync_join_beneath (u v : Rsync) (p : Bytes) (hu : u.Inv) (hj : u.join p = .ok v) :
+    v.relativeTo u = some p ∧ (p ≠ [] → u.isParentOf v = true) := Rsync.join_beneath u v p hu hj
+
+/-- A parent is a parent of its child. -/
+theorem rsync_parent_isParentOf (u v : Rsync) (hu : u.Inv) (hp : u.parent = some v) :
+    v.isParentOf u = true := Rsync.parent_isParentOf u v hu hp
+
+/-- The parent of an HTTPS URI is a valid URI that re-parses to the same value, with the same
+authority. -/
+theorem https_parent_reparse (u v : Https) (h : u.Inv) (hp : u.parent = some v) :
+    Https.fromBytes v.uri = .ok v ∧ v.pathIdx = u.pathIdx := Https.parent_reparse u v h hp
+
 
 def ex1 : Bytes := [114, 115, 121, 110, 99, 58, 47, 47, 104, 47, 109, 47, 97, 47, 98]   -- "rsync://h/m/a/b"
 def ex2 : Bytes := [104, 116, 116, 112, 115, 58, 47, 47, 101, 120, 97, 109, 112, 108, 101, 46, 99, 111, 109]   -- "https://example.com"
